@@ -490,14 +490,6 @@ def lastKind : Tick → String
   | .feedEnded _ => "feed-ended"
   | .process _ ev a => if a.fatal then "fatal" else match ev with | .shutdown => "shutdown" | _ => "other"
 
-/-- the audit consumer of `rundrop K`: before the K-th `feed.next()` it reads everything queued, then
-drops its receiver -/
-def dropEnv (k : Nat) (i : Nat) (w : Chan Tick × List Tick) : Chan Tick × List Tick :=
-  if i == k then (w.1.dropRx, w.2 ++ w.1.queue) else w
-
-def worldTx : Tx (Chan Tick × List Tick) Tick :=
-  ⟨fun w x => let r := w.1.send x; ((r.1, w.2), r.2), fun w => (w.1.dropTx, w.2)⟩
-
 def runDrop (s : EnSt) (k : Nat) : List String :=
   let start : EngA := ⟨s.init, 1⟩
   let a := runAudited auditRunner worldTx (dropEnv k) 0 start .active (Chan.new, []) s.history
